@@ -1,0 +1,27 @@
+//go:build verif
+
+package dag
+
+import "errors"
+
+// VerifHook - when set, receives one event per scheduler/worker linearization point of Graph.Run (verification builds only).
+// The hook may block: the calling goroutine does not proceed until it returns.
+var VerifHook func(ev, graph, id, detail string)
+
+func verifEmit(ev string, g *Graph, id ID, detail string) {
+	if h := VerifHook; h != nil {
+		h(ev, g.Name, string(id), detail)
+	}
+}
+
+func verifErrKind(err error) string {
+	switch {
+	case err == nil:
+		return "nil"
+	case errors.Is(err, ErrorSkipParents):
+		return "skipparents"
+	case errors.Is(err, ErrorTaskSkipped):
+		return "skipped"
+	}
+	return "err"
+}
